@@ -55,8 +55,8 @@ Qed.
 
 Lemma sc_eq a b : stack_compare a b = Eq -> a = b.
 Proof.
-  revert b; induction a as [|x a IH]; intros [|y b]; simpl; try discriminate; auto.
-  change (stack_compare (x :: a) (y :: b) = Eq -> x :: a = y :: b). rewrite sc_cons.
+  revert b; induction a as [|[x1 x2] a IH]; intros [|[y1 y2] b]; try (simpl; discriminate); auto.
+  generalize (x1, x2) (y1, y2); intros x y. rewrite sc_cons.
   destruct (iid_cmp x y) eqn:E; try discriminate.
   apply iid_cmp_eq in E; subst. intros H; f_equal; auto.
 Qed.
@@ -66,15 +66,15 @@ Proof. split; [apply sc_eq | intros ->; apply sc_refl]. Qed.
 
 Lemma sc_antisym a b : stack_compare b a = CompOpp (stack_compare a b).
 Proof.
-  revert b; induction a as [|x a IH]; intros [|y b]; auto.
+  revert b; induction a as [|[x1 x2] a IH]; intros [|[y1 y2] b]; auto.
+  generalize (x1, x2) (y1, y2); intros x y.
   rewrite !sc_cons, (iid_cmp_antisym x y). destruct (iid_cmp x y); simpl; auto.
 Qed.
 
 Lemma sc_lt_trans a b c : slt a b -> slt b c -> slt a c.
 Proof.
-  unfold slt. revert b c; induction a as [|x a IH]; intros [|y b] [|z c]; try (simpl; congruence).
-  - destruct y; simpl; congruence.
-  - rewrite !sc_cons.
+  unfold slt. revert b c; induction a as [|[x1 x2] a IH]; intros [|[y1 y2] b] [|[z1 z2] c]; try (simpl; congruence).
+  - generalize (x1, x2) (y1, y2) (z1, z2); intros x y z. rewrite !sc_cons.
     destruct (iid_cmp x y) eqn:E1; try discriminate; destruct (iid_cmp y z) eqn:E2; try discriminate.
     + apply iid_cmp_eq in E1, E2; subst. replace (iid_cmp z z) with Eq by (symmetry; apply iid_cmp_eq; auto).
       apply IH.
@@ -208,10 +208,11 @@ Lemma union_spec a b r same :
 Proof.
   revert b r same; induction a as [|x a IHa]; intros b.
   - intros r same _ Hb; rewrite union_nil_l; destruct b as [|y b]; intros H; inversion H; subst.
-    + repeat split; auto using sorted_nil; try tauto. intros z [].
-    + repeat split; auto; try tauto; try discriminate. intros Hi; destruct (Hi y); left; auto.
+    + split; [constructor | split; [intros s; simpl; tauto | split; [intros _ z [] | auto]]].
+    + split; [auto | split; [intros s; simpl; tauto | split; [discriminate | intros Hi; destruct (Hi y); left; auto]]].
   - induction b as [|y b IHb]; intros r same Ha Hb.
-    + rewrite union_nil_r; intros H; inversion H; subst. repeat split; auto; try tauto. intros z [].
+    + rewrite union_nil_r; intros H; inversion H; subst.
+      split; [auto | split; [intros s; simpl; tauto | split; [intros _ z [] | auto]]].
     + rewrite union_cons.
       pose proof Ha as Ha0; pose proof Hb as Hb0.
       apply sorted_cons_iff in Ha as [Sa Ba]; apply sorted_cons_iff in Hb as [Sb Bb].
@@ -239,7 +240,7 @@ Proof.
       * (* y < x *)
         apply sc_gt_lt in E.
         destruct (stack_set_union (x :: a) b) as [r' s'] eqn:U. intros H; inversion H; subst; clear H.
-        destruct (IHb _ _ Ha0 Sb U) as (Sr & Mr & Fr). split; [|split].
+        destruct (IHb _ _ Ha0 Sb eq_refl) as (Sr & Mr & Fr). split; [|split].
         -- apply sorted_cons_iff; split; auto. intros z Hz; apply Mr in Hz as [[<-|Hz]|Hz]; auto.
            eapply sc_lt_trans; eauto.
         -- intros s; simpl; rewrite Mr; simpl; tauto.
